@@ -18,7 +18,7 @@ RULE = ("cases = (first message: CONNECT with a handshake payload shape x valida
         "at least one INVOKE follows the first message")
 ASSUMPTIONS = ["for an unknown serializer id or an exception whose __str__ raises the statement promises no reason: only 'nothing ran' and 'closed' are required",
                "pre-connected socket pairs are exempt and not exercised", "'is closed' = EOF/RST observed within a 10 s watchdog"]
-REQUIRED_REACH = ["late_refusals_ok", "late_acceptances_ok", "sibling_refusals_ok", "baseexception_validators_ok", "collected_weak_ids_refused", "reused_tickets_refused", "refused_ok", "accepted_ok", "pipelined_invokes_sent", "validator_raised", "wrong_first_type", "unknown_object", "malformed_first"]
+REQUIRED_REACH = ["installed_validators_ok", "late_refusals_ok", "late_acceptances_ok", "sibling_refusals_ok", "baseexception_validators_ok", "collected_weak_ids_refused", "reused_tickets_refused", "refused_ok", "accepted_ok", "pipelined_invokes_sent", "validator_raised", "wrong_first_type", "unknown_object", "malformed_first"]
 SHARD_TIMEOUT = {"quick": 240, "thorough": 2800}
 
 
@@ -537,6 +537,64 @@ def baseexception_phase(P, servertype, rec, r):
                     pass
 
 
+def installed_validator_phase(P, servertype, rec, r):
+    """The validator does not have to come from a subclass written before the daemon exists: applications assign `validateHandshake` on
+    the daemon instance (a closure over their session store), and they replace it while the daemon is serving (maintenance mode on / off).
+    Whatever validator is installed when a connection arrives decides about that connection."""
+    for how in ("assigned-on-instance", "swapped-to-refusing-while-serving", "swapped-to-accepting-while-serving"):
+        fx, log = make_env(P, servertype)
+        try:
+            def refusing(conn, data):
+                log.add("validator", "installed one refuses")
+                raise PermissionError("maintenance mode")
+
+            def accepting(conn, data):
+                log.add("validator", "installed one accepts")
+                return "welcome back"
+            ser = P.serializers.serializers[r.choice(fixture.SERIALIZERS)]
+
+            def attempt(tag):
+                c = wire.RawClient(fx.location, timeout=2.0)
+                try:
+                    c.send(wire.encode(wire.CONNECT, 0, 0, ser.serializer_id, ser.dumps({"handshake": {"mode": "accept"}, "object": "marker"})) +
+                           invoke_bytes(P, ser, "marker", "mark", (tag,), 1))
+                    try:
+                        first = c.recv_msg()
+                    except Exception:
+                        first = None
+                    time.sleep(0.15)
+                finally:
+                    c.close()
+                ran = [e for e in log.of("exec") if e[2] == "mark" and e[3] == tag]
+                return first, ran
+            stages = {"assigned-on-instance": [(refusing, False)],
+                      "swapped-to-refusing-while-serving": [(None, True), (refusing, False), (accepting, True)],
+                      "swapped-to-accepting-while-serving": [(refusing, False), (accepting, True), (refusing, False)]}[how]
+            for i, (val, want_accept) in enumerate(stages):
+                if val is not None:
+                    fx.daemon.validateHandshake = val
+                tag = "%s-%d" % (how, i)
+                pay = {"installed_validator": how, "stage": i, "servertype": servertype}
+                rec.case(("installed", how, i, servertype), nontrivial=True)
+                first, ran = attempt(tag)
+                ok = first is not None and first.type == wire.CONNECTOK
+                if not want_accept and (ok or ran):
+                    rec.violation("executed-without-handshake", "the validator installed on the daemon instance (%s, stage %d) refuses, yet the connection %s and %d pipelined call(s) ran" % (
+                        how, i, "was told CONNECTOK" if ok else "got no CONNECTOK", len(ran)), pay)
+                    return
+                if want_accept and not (ok and ran):
+                    rec.violation("accepted-handshake-not-served", "the validator installed on the daemon instance (%s, stage %d) accepts, yet the connection %s and %d pipelined call(s) ran" % (
+                        how, i, "was told CONNECTOK" if ok else "got no CONNECTOK", len(ran)), pay)
+                    return
+                rec.count("installed_validators_ok")
+        finally:
+            try:
+                fx.sibling.stop()
+                fx.stop()
+            except Exception:
+                pass
+
+
 def weak_object_phase(fx, log, rec, r, n):
     """an id that WAS known (a weakly registered object, connected to while it lived) and is unknown now (the object was collected):
     a connect message naming it is refused like any unknown id, and nothing pipelined behind it runs"""
@@ -678,6 +736,7 @@ def run_shard(shard, rec):
         fx.stop()
     if shard["i"] < 2:
         baseexception_phase(P, shard["servertype"], rec, r)
+        installed_validator_phase(P, shard["servertype"], rec, r)
         slow_validator_phase(P, shard["servertype"], rec, r)
 
 
@@ -687,7 +746,10 @@ def replay(payload, rec):
     fx, log = make_env(P, st)
     try:
         if payload.get("slow_validator"):
-            slow_validator_phase(P, payload["servertype"], rec, gen.rng(0, "replay"))
+            slow_validator_phase(P, st, rec, gen.rng(0, "replay"))
+            return
+        if payload.get("installed_validator"):
+            installed_validator_phase(P, st, rec, gen.rng(0, "replay"))
             return
         if payload.get("weak_phase"):
             weak_object_phase(fx, log, rec, gen.rng(0, "replay"), payload.get("n", 0))
